@@ -2,8 +2,8 @@
     Conn (connection.go handleFrames in front of the streams map), with or without a qlog tracer.
     The model's verdict for the frame sequence is the connection's close error: frames are handled
     in order by the StreamsMap model; the first error ends the packet (no later frame of the packet
-    has any effect) and the connection. A tracer does not occur in the model: the verdict must not
-    depend on it. *)
+    has any effect) and the connection. The qlog tracer is a parameter of the model: it only matters
+    when a malformed frame follows the failing one (the parser then goes on and its error wins). *)
 From Coq Require Import List ZArith Bool String.
 From V Require Import Gen.Params Lib.Corr Lib.Hex.
 From V Require Export StreamsMap.Model.
@@ -15,15 +15,19 @@ Inductive gframe :=
 | GStopSending (id : Z) | GMaxStreamData (id : Z)                            (* getSendStream *)
 | GPing
 | GMaxStreams (uni : bool) (n : Z)
-| GStreamFin (id : Z).                                                       (* STREAM with FIN *)
+| GStreamFin (id : Z)                                                        (* STREAM with FIN *)
+| GMalformed.                                                                (* unknown frame type: parse error *)
 
 Definition gframe_op (f : gframe) : option op :=
   match f with
   | GStream id | GResetStream id | GStreamDataBlocked id | GStreamFin id => Some (ORecv id)
   | GStopSending id | GMaxStreamData id => Some (OSend id)
-  | GPing => None
+  | GPing | GMalformed => None
   | GMaxStreams u n => Some (OMaxStreams u n)
   end.
+
+Definition ErrFrameEncoding : Z := 8.   (* FRAME_ENCODING_ERROR *)
+Definition is_malformed (f : gframe) : bool := match f with GMalformed => true | _ => false end.
 
 (** the frames that tell the final size of a stream *)
 Definition gframe_final (f : gframe) : option Z :=
@@ -53,19 +57,23 @@ Definition maybe_complete (g : gstate) (id : Z) : gstate * list frame :=
        (mkG s' (g_cancel g) (g_final g) (zadd id (g_done g)) (g_nextA g), fr)
   else (g, []).
 
-(** handleFrames: None = no error, else the error class of the first failing frame; the control
-    frames queued meanwhile *)
-Fixpoint handle_packet (g : gstate) (fs : list gframe) : gstate * option Z * list frame :=
+(** handleFrames: None = no error, else the error class the packet fails with; the control frames
+    queued meanwhile. A frame that cannot be parsed ends the packet with FRAME_ENCODING_ERROR. After a
+    frame whose HANDLING failed no further frame is handled; without a qlog tracer the packet ends
+    there with that error; with a tracer the rest of the packet is still parsed (to be logged), and
+    a malformed frame in it makes the parser's error the packet's error. *)
+Fixpoint handle_packet (tracer : bool) (g : gstate) (fs : list gframe) : gstate * option Z * list frame :=
   match fs with
   | [] => (g, None, [])
   | f :: r =>
+    if is_malformed f then (g, Some ErrFrameEncoding, []) else
     match gframe_op f with
-    | None => handle_packet g r
+    | None => handle_packet tracer g r
     | Some o =>
       let '(s', x, fr1) := tstep (g_sm g) o in
       let g1 := mkG s' (g_cancel g) (g_final g) (g_done g) (g_nextA g) in
       match x with
-      | RErr e => (g1, Some e, fr1)
+      | RErr e => (g1, Some (if tracer && existsb is_malformed r then ErrFrameEncoding else e), fr1)
       | _ =>
         let '(g2, fr2) :=
           match x, gframe_final f with
@@ -73,7 +81,7 @@ Fixpoint handle_packet (g : gstate) (fs : list gframe) : gstate * option Z * lis
             maybe_complete (mkG s' (g_cancel g) (zadd id (g_final g)) (g_done g) (g_nextA g)) id
           | _, _ => (g1, [])
           end in
-        let '(g3, e, fr3) := handle_packet g2 r in (g3, e, fr1 ++ fr2 ++ fr3)
+        let '(g3, e, fr3) := handle_packet tracer g2 r in (g3, e, fr1 ++ fr2 ++ fr3)
       end
     end
   end.
@@ -94,10 +102,10 @@ Definition res_code (x : res) : Z :=
   match x with RId id => id | RErr e => - e | RParked => - ErrCtx | _ => 0 end.
 
 (** result code: packets: 0 or the error class; Accept/Open: the stream ID or minus the error class *)
-Definition glue_step (g : gstate) (st : gstep) : gstate * Z * list frame :=
+Definition glue_step (tracer : bool) (g : gstate) (st : gstep) : gstate * Z * list frame :=
   match st with
   | SPacket fs =>
-    let '(g', e, fr) := handle_packet g fs in (g', match e with Some c => c | None => 0 end, fr)
+    let '(g', e, fr) := handle_packet tracer g fs in (g', match e with Some c => c | None => 0 end, fr)
   | SApp (GAAccept uni) =>
     let a := g_nextA g in
     let '(s1, x, fr) := tstep (g_sm g) (OAcceptCall uni a) in
@@ -121,14 +129,14 @@ Definition glue_step (g : gstate) (st : gstep) : gstate * Z * list frame :=
   end.
 
 (** steps until a packet fails (the connection is closed with that error) *)
-Fixpoint glue_run (g : gstate) (sts : list gstep) : gstate * list (Z * list frame) :=
+Fixpoint glue_run (tracer : bool) (g : gstate) (sts : list gstep) : gstate * list (Z * list frame) :=
   match sts with
   | [] => (g, [])
   | st :: r =>
-    let '(g', c, fr) := glue_step g st in
+    let '(g', c, fr) := glue_step tracer g st in
     match st with
-    | SPacket _ => if c =? 0 then let '(g2, out) := glue_run g' r in (g2, (c, fr) :: out) else (g', [(c, fr)])
-    | _ => let '(g2, out) := glue_run g' r in (g2, (c, fr) :: out)
+    | SPacket _ => if c =? 0 then let '(g2, out) := glue_run tracer g' r in (g2, (c, fr) :: out) else (g', [(c, fr)])
+    | _ => let '(g2, out) := glue_run tracer g' r in (g2, (c, fr) :: out)
     end
   end.
 
@@ -147,8 +155,8 @@ Inductive obs := GlueObs (outs : list (Z * list frame)) (ib iu : gsnap) (ob ou :
 
 Definition model_obs (c : case) : obs :=
   match c with
-  | GlueCase client _ mb mu steps _ _ _ _ _ =>
-    let '(g, outs) := glue_run (g_init client mb mu) steps in
+  | GlueCase client tracer mb mu steps _ _ _ _ _ =>
+    let '(g, outs) := glue_run tracer (g_init client mb mu) steps in
     let s := g_sm g in
     GlueObs outs (gsnap_of (s_ib s)) (gsnap_of (s_iu s)) (gosnap_of (s_ob s)) (gosnap_of (s_ou s))
   end.
